@@ -11,7 +11,7 @@ import z3
 from pyvc import loader, ops
 from pyvc.contracts import FnContract, LoopSpec, Raises
 from pyvc.state import HeapObj
-from pyvc.values import VTable, NONE, VBool, VBytes, VExt, VInt, VRef, VSeq, VStr, VTuple, VUnk, ext_sort, fresh_name
+from pyvc.values import VTable, NONE, VBool, VBytes, VExt, VFunc, VInt, VRef, VSeq, VStr, VTuple, VUnk, ext_sort, fresh_name
 from pyvc.verify import Maker, p_bv, p_bytes, p_const, p_list_bv
 
 AES = "sharepoint2text/parsing/extractors/pdf/_pypdf_aes_fallback.py"
@@ -375,8 +375,19 @@ def contracts(reg):
         raises=[Raises("ValueError", when=bad_key_len)],
         inline=False))
 
+    def block_coerce(v):
+        """a call site may pass a slice of a symbolic buffer (`view[start:stop]`): it is the 16 bytes it selects, provided the
+        call site proves that its length is 16 (call-pre VC); the drivers never hand a shorter block to the block functions"""
+        from contracts import c20_modes as M
+        if isinstance(v, VSeq) and isinstance(v.tag, tuple) and v.tag and v.tag[0] == "arr":
+            n, a = M.arr_of(v)
+            return VBytes([VInt(z3.simplify(z3.Select(a, t))) for t in range(16)]), n == 16
+        return v, None
+
     def blk_params():
-        return [("block", p_alts(p_bytes(16), p_sym_bytes(lambda n: n != 16, "bytes of length != 16"))),
+        mk = p_alts(p_bytes(16), p_sym_bytes(lambda n: n != 16, "bytes of length != 16"))
+        mk.coerce = block_coerce
+        return [("block", mk),
                 ("round_keys", p_alts(p_round_keys(11), p_round_keys(13), p_round_keys(15)))]
 
     def bad_block(c):
@@ -570,34 +581,87 @@ def mode_contracts(reg):
              "in order` (PY-GEN) is assumed; validated natively in replay (chunks_ok)",
     ))
 
-    def offset_name(fname):
-        """the local that advances by one block per iteration of the driver's loop (`offset += 16`), read from the real AST so
-        that renaming it re-verifies"""
+    # ---- what the loop invariants talk about is found by ROLE in the state of the real function, never by name:
+    #   * the output buffer   = the (one) symbolic byte array on the heap that a local refers to,
+    #   * the round keys      = the (one) local of sort RoundKeys,
+    #   * induction variables = locals the loop body advances by a constant (`x += c`, `x = x + c`):  x == x@entry + c * i,
+    #   * the chaining block  = the (one) bytes-like local that is bound at loop entry and re-assigned in the loop body.
+    def loop_node(lc):
         import ast
-        fn = loader.module(AES).functions.get(fname)
-        for loop in [n for n in ast.walk(fn) if isinstance(n, (ast.For, ast.While))] if fn is not None else []:
-            for n in loop.body:
-                if isinstance(n, ast.AugAssign) and isinstance(n.op, ast.Add) and isinstance(n.target, ast.Name) \
-                        and isinstance(n.value, ast.Constant) and n.value.value == 16:
-                    return n.target.id
-        return "offset"
+        fn = lc.ex.cur_fn_stack[-1]
+        loops = [n for n in ast.walk(fn) if isinstance(n, (ast.For, ast.While))]
+        loops.sort(key=lambda n: (n.lineno, n.col_offset))
+        if not loops:
+            raise ops.Unsupported("driver without a loop")
+        return loops[0]
+
+    def env_items(st):
+        return list(st.frames[-1].env.items())
+
+    def out_buffer(lc):
+        refs = {v.ref: nme for nme, v in env_items(lc.st) if isinstance(v, VRef) and lc.st.heap.get(v.ref) is not None and lc.st.obj(v.ref).kind == "symarr"}
+        if len(refs) != 1:
+            raise ops.Unsupported(f"output buffer not recognised ({len(refs)} symbolic byte arrays among the locals)")
+        return lc.st.obj(next(iter(refs))).data
+
+    def round_keys_of(lc):
+        rks = [v for _n, v in env_items(lc.st) if isinstance(v, VExt) and v.sort == "RoundKeys"]
+        if len({str(v.t) for v in rks}) != 1:
+            raise ops.Unsupported("round keys local not recognised")
+        return rks[0].t
+
+    def induction(lc):
+        """[(name, step)] of the loop's own counters"""
+        import ast
+        out = []
+        for n in loop_node(lc).body:
+            if isinstance(n, ast.AugAssign) and isinstance(n.op, (ast.Add, ast.Sub)) and isinstance(n.target, ast.Name) \
+                    and isinstance(n.value, ast.Constant) and isinstance(n.value.value, int):
+                out.append((n.target.id, n.value.value if isinstance(n.op, ast.Add) else -n.value.value))
+            elif isinstance(n, ast.Assign) and len(n.targets) == 1 and isinstance(n.targets[0], ast.Name) and isinstance(n.value, ast.BinOp) \
+                    and isinstance(n.value.op, ast.Add):
+                l, r = n.value.left, n.value.right
+                for x, y in ((l, r), (r, l)):
+                    if isinstance(x, ast.Name) and x.id == n.targets[0].id and isinstance(y, ast.Constant) and isinstance(y.value, int):
+                        out.append((x.id, y.value))
+        return out
+
+    def counters_ok(lc):
+        cs = []
+        for (nme, step) in induction(lc):
+            v0 = lc.entry.lookup(nme)
+            if v0 is None or lc.st.lookup(nme) is None:
+                continue
+            cs.append(ops.int_term(lc[nme]) == ops.int_term(v0) + step * lc.i)
+        return z3.And(cs) if cs else z3.BoolVal(True)
+
+    def chain_local(lc):
+        """name of the carried chaining block or None"""
+        body = loop_node(lc).body
+        stored = lc.ex.assigned_names(body)
+        cands = []
+        for nme in sorted(stored):
+            v0 = lc.entry.lookup(nme)
+            if v0 is not None and (isinstance(v0, VBytes) or lc.ex._is_symb(v0)):
+                cands.append(nme)
+        if len(cands) > 1:
+            raise ops.Unsupported(f"more than one carried bytes local in the CBC loop: {cands}")
+        return cands[0] if cands else None
 
     def spec_ecb(rk, a, ra, nblocks, fns):
         j = z3.Int("j!ecb")
         return z3.ForAll([j], M.ecb_at(fns, rk, a, ra, nblocks, j))
 
     def ecb_contract(name, fns):
-        OFF = offset_name(name)
-
         def inv(lc):
             n, a = M.arr_of(lc.entry.lookup("data"))
-            on, oa = lc.st.obj(lc["out"].ref).data
-            return z3.And(ops.int_term(lc[OFF]) == 16 * lc.i, on == n)
+            on, oa = out_buffer(lc)
+            return z3.And(counters_ok(lc), on == n)
 
         def inv_point(lc, j):
             n, a = M.arr_of(lc.entry.lookup("data"))
-            on, oa = lc.st.obj(lc["out"].ref).data
-            return M.ecb_at(fns, lc["round_keys"].t, a, oa, lc.i, j)
+            on, oa = out_buffer(lc)
+            return M.ecb_at(fns, round_keys_of(lc), a, oa, lc.i, j)
 
         def post(c):
             n, a = M.arr_of(c.args["data"])
@@ -637,23 +701,27 @@ def mode_contracts(reg):
 
     def cbc_contract(name, enc):
         at = M.cbc_enc_at if enc else M.cbc_dec_at
-        OFF = offset_name(name)
 
         def parts(lc):
             n, a = M.arr_of(lc.entry.lookup("data"))
             _ivn, iva = M.arr_of(lc.entry.lookup("iv"))
-            on, oa = lc.st.obj(lc["out"].ref).data
+            on, oa = out_buffer(lc)
             return n, a, iva, on, oa
 
         def inv(lc):
             n, a, iva, on, oa = parts(lc)
             chained = oa if enc else a
-            prev_ok = z3.And([p_ == c_ for p_, c_ in zip(prev_terms(lc["prev"]), M.chain(lc.i, iva, chained))])
-            return z3.And(ops.int_term(lc[OFF]) == 16 * lc.i, on == n, prev_ok)
+            cs = [counters_ok(lc), on == n]
+            ch = chain_local(lc)
+            if ch is not None:
+                v = lc[ch]
+                cs.append((z3.IntVal(len(v.items)) if isinstance(v, VBytes) else v.length) == 16)
+                cs += [p_ == c_ for p_, c_ in zip(prev_terms(v), M.chain(lc.i, iva, chained))]
+            return z3.And(cs)
 
         def inv_point(lc, j):
             n, a, iva, on, oa = parts(lc)
-            return at(lc["round_keys"].t, iva, a, oa, lc.i, j)
+            return at(round_keys_of(lc), iva, a, oa, lc.i, j)
 
         def post(c):
             n, a = M.arr_of(c.args["data"])
@@ -668,7 +736,7 @@ def mode_contracts(reg):
             target=f"{AES}::{name}", params=sig_params(name, {"key": KEY, "iv": IV, "data": DATA}),
             ensures=[("cbc-chaining-equation-for-every-block", post), ("lengths-valid", lambda c: z3.Not(bad(c)))],
             raises=[Raises("ValueError", when=bad)],
-            loops={0: LoopSpec(inv=inv, inv_point=inv_point, label="blocks", rebind={"prev": fresh_block("prev")})},
+            loops={0: LoopSpec(inv=inv, inv_point=inv_point, label="blocks", rebind="carried-16-byte-blocks")},
             result_maker=fresh_bytes("cbc_enc" if enc else "cbc_dec"),
             note="SP 800-38A CBC for block-aligned messages of any length and every IV",
         )
@@ -692,7 +760,23 @@ def mode_contracts(reg):
     reg.ext_models["os.urandom"] = m_random_bytes
     from pyvc.verify import p_obj
     SELF = p_obj("CryptAES", {"key": KEY})
-    W = f"{AES}::patch_pypdf_fallback_aes.<locals>."
+    # the functions under the wrapper contracts are the ones the REAL installation code binds to CryptAES.__init__ / .encrypt /
+    # .decrypt (data flow of the executed `patch_pypdf_fallback_aes`, see c20_modes.InstallExecutor) -- wherever they are defined
+    # and whatever they are called; the obligation ids carry the role, not the function name
+    bound = M.installed_methods(loader.REPO)
+    fns_ = loader.module(AES).functions
+
+    def wrapper_target(role, default):
+        q = bound.get(role)
+        if q is None:
+            q = next((c_ for c_ in (f"patch_pypdf_fallback_aes.<locals>.{default}", default) if c_ in fns_), f"patch_pypdf_fallback_aes.<locals>.{default}")
+        return q
+
+    def role_contract(role, default, roles, **kw):
+        q = wrapper_target(role, default)
+        c_ = FnContract(target=f"{AES}::{q}", params=sig_params(q, roles), **kw)
+        c_.oid_name = f"CryptAES.{role}"
+        return c_
 
     def same_bytes(x, y):
         nx, ax = M.arr_of(x)
@@ -706,8 +790,8 @@ def mode_contracts(reg):
             return z3.BoolVal(False)
         return same_bytes(k, c.args["key"])
 
-    out.append(FnContract(
-        target=W + "_cryptaes_init", params=sig_params("patch_pypdf_fallback_aes.<locals>._cryptaes_init", {"self": p_obj("CryptAES", {}), "key": KEY}),
+    out.append(role_contract(
+        "__init__", "_cryptaes_init", {"self": p_obj("CryptAES", {}), "key": KEY},
         ensures=[("stores-exactly-the-given-key", init_post)], modifies=("self",), raises=[],
         note="CryptAES(key).key == key for every key (what the encrypt / decrypt contracts read as self.key); a bad key length is "
              "rejected by the first encrypt / decrypt call",
@@ -754,8 +838,8 @@ def mode_contracts(reg):
                                   "the IV is a value that existed before the call (same for every call)")
         return z3.Or([z3.BoolVal(False)] + [z3.And(x[1]["n"] == 16, same_bytes(enc[1]["iv"], x[2])) for x in draws])
 
-    out.append(FnContract(
-        target=W + "_cryptaes_encrypt", params=sig_params("patch_pypdf_fallback_aes.<locals>._cryptaes_encrypt", {"self": SELF, "data": DATA}),
+    out.append(role_contract(
+        "encrypt", "_cryptaes_encrypt", {"self": SELF, "data": DATA},
         ensures=[("returns-iv-followed-by-cbc-of-the-padded-data", enc_post),
                  ("iv-is-drawn-from-the-randomness-source-within-this-call", iv_fresh)],
         raises=[Raises("ValueError", when=lambda c: bad_len(c.entry.obj(c.args["self"].ref).data["key"].length))],
@@ -780,8 +864,8 @@ def mode_contracts(reg):
                       same_bytes(unp[1]["data"], dec[2]),                                     # unpads exactly the CBC plaintext
                       same_bytes(c.result, unp[2]))
 
-    out.append(FnContract(
-        target=W + "_cryptaes_decrypt", params=sig_params("patch_pypdf_fallback_aes.<locals>._cryptaes_decrypt", {"self": SELF, "data": DATA}),
+    out.append(role_contract(
+        "decrypt", "_cryptaes_decrypt", {"self": SELF, "data": DATA},
         ensures=[("returns-unpadded-cbc-plaintext-of-data-after-the-iv", dec_post)],
         raises=[Raises("ValueError", label="bad key length, short IV or invalid padding (raised by the callee contracts)")],
         note="for block-aligned ciphertexts; a ragged payload is padded first (pypdf compatibility) -- not part of the statement",
@@ -898,6 +982,15 @@ def post_report(contract, rep):
     """`iv-is-drawn-...` is a SUFFICIENT condition for freshness (the IV *is* a draw made inside the call); an IV computed
     from such a draw in some other way makes the solver refute the clause without being a counterexample to the property:
     such a model is downgraded to `unknown`, the native replayer (IVs of several calls compared) decides."""
+    if contract.target.split("::")[-1] in DRIVERS:
+        # the drivers' loops are cut by invariants that this pack GUESSES from the roles of the locals (output buffer, counters,
+        # chaining block): a VC that fails may only mean that the guessed invariant does not fit a restructured loop.  Such a
+        # model is no counterexample to the property: `unknown`, and the native replayer (differential runs of all four
+        # drivers over short and long messages, wrong lengths) decides.
+        for o in rep.obligations:
+            if o["status"] == "refuted":
+                o["status"] = "unknown"
+                o["reason"] = "fails under the inferred loop invariant (not a definite counterexample): " + (o.get("reason") or "")
     for o in rep.obligations:
         if o["id"].endswith("#iv-is-drawn-from-the-randomness-source-within-this-call") and o["status"] == "refuted":
             o["status"] = "unknown"
@@ -905,100 +998,78 @@ def post_report(contract, rep):
 
 
 DRIVERS = ("aes_ecb_encrypt", "aes_ecb_decrypt", "aes_cbc_encrypt", "aes_cbc_decrypt")
-PYPDF_FALLBACK, PYPDF_PROVIDERS, PYPDF_ENCRYPTION = "pypdf._crypt_providers._fallback", "pypdf._crypt_providers", "pypdf._encryption"
-METHOD_ROLES = {"__init__": "_cryptaes_init", "encrypt": "_cryptaes_encrypt", "decrypt": "_cryptaes_decrypt"}
 
 
 def install_site(repo, tier):
     """The installation site `patch_pypdf_fallback_aes`: what pypdf calls after the patch IS the code under contract.
-    Obligations (dataflow on the real AST; the body must be the straight-line shape guard / imports / defs / stores / return True,
-    anything else is an unrecognised shape = UNDECIDED, decided by the native replayer through pypdf's own bindings):
-      * every store `<pypdf module>.aes_xxx = V`: V is the module-level function aes_xxx of this module (same name, not shadowed);
-      * every store `<fallback>.CryptAES.<m> = V`: V is the nested function that is verified under the contract of role <m>;
-      * `<module>.CryptAES = V`: V is `<fallback>.CryptAES` (the patched class);
-      * completeness: all 4 drivers + the 3 methods on the fallback module, all 4 drivers + CryptAES on the two modules that
-        imported the names earlier -- on every path that returns True."""
-    import ast
-    from pyvc.flow import dotted, ground_obligation
-    m = loader.module(AES, repo)
-    f = m.functions.get("patch_pypdf_fallback_aes")
+    The REAL function is executed symbolically on an abstract model of the three pypdf modules (c20_modes.InstallExecutor:
+    helpers inlined, loops over constant tuples unrolled, setattr / attribute stores alike); the obligations are read off
+    the final heap of every outcome:
+      * it declines (returns anything but True) only when pypdf does not run on its fallback provider;
+      * when it returns True, each of the four aes_* names of the fallback module, the provider package and pypdf._encryption
+        is bound to the module-level function of THIS module with that name (the one verified under that name's contract), and
+        CryptAES of the three modules is the one class whose __init__ / encrypt / decrypt are bound to functions of this module
+        (those functions are the targets of the CryptAES.* contracts, by construction);
+      * nothing pypdf uses is left on pypdf's DependencyError stub.
+    If the model cannot execute the function, the obligations are `unknown` and the native replayer (pypdf's own bindings after
+    the real patch) decides."""
+    from contracts import c20_modes as M
+    from pyvc.flow import ground_obligation
+    from pyvc import solve
     pre = "C20/_pypdf_aes_fallback.py::patch_pypdf_fallback_aes/install"
-    if f is None:
-        return {"obligations": [], "undecided": [{"obligation": pre, "why": "contract-target-missing"}]}
+    labels = ("installs-whenever-pypdf-runs-on-its-fallback-provider", "every-store-binds-the-function-verified-for-that-name",
+              "all-names-pypdf-uses-are-rebound")
+    r = M.run_install_site(repo)
+    if "error" in r:
+        return {"obligations": [ground_obligation(f"{pre}#{lb}", False, "installation code not executable by the model: " + r["error"][:300], AES,
+                                                  kind="call-site", definite=False) for lb in labels]}
     obls = []
     G = lambda label, ok, why="", definite=True: obls.append(ground_obligation(f"{pre}#{label}", ok, "" if ok else why, AES, kind="call-site", definite=definite))
-    alias, stores, shape_ok, why_shape = {}, [], True, ""
-    nested = {}
-    local_names = set()
-    body = list(f.body)
-    if body and isinstance(body[0], ast.Expr) and isinstance(body[0].value, ast.Constant) and isinstance(body[0].value.value, str):
-        body = body[1:]
-    returned_true = False
-    guards = []
-    for st_ in body:
-        if returned_true:
-            shape_ok, why_shape = False, f"line {st_.lineno}: code after `return True`"
-        if isinstance(st_, ast.Import):
-            for a in st_.names:
-                if a.asname:
-                    alias[a.asname] = a.name
-                else:
-                    shape_ok, why_shape = False, f"line {st_.lineno}: import without alias"
-        elif isinstance(st_, ast.FunctionDef):
-            nested[st_.name] = st_
-        elif isinstance(st_, ast.If) and not st_.orelse and len(st_.body) == 1 and isinstance(st_.body[0], ast.Return) \
-                and isinstance(st_.body[0].value, ast.Constant) and st_.body[0].value.value is False \
-                and not any(isinstance(n, (ast.Call, ast.NamedExpr)) for n in ast.walk(st_.test)):
-            guards.append(st_.test)               # guard: not applicable -> returns False before any store
-        elif isinstance(st_, ast.Assign) and len(st_.targets) == 1 and isinstance(st_.targets[0], ast.Attribute):
-            stores.append((dotted(st_.targets[0]), st_.value, st_.lineno))
-        elif isinstance(st_, ast.Return) and isinstance(st_.value, ast.Constant) and st_.value.value is True:
-            returned_true = True
-        else:
-            shape_ok, why_shape = False, f"line {st_.lineno}: {type(st_).__name__} statement not of the installation shape"
-            for n in ast.walk(st_):
-                if isinstance(n, ast.Name) and isinstance(n.ctx, ast.Store):
-                    local_names.add(n.id)
-    G("body-has-the-straight-line-installation-shape", shape_ok and returned_true, why_shape or "no `return True`", definite=False)
-    mod_of = lambda name: alias.get(name, "")
-
-    def is_fallback_test(t):
-        """<providers>.crypt_provider[0] != "local_crypt_fallback"  (the only reason not to install)"""
-        return (isinstance(t, ast.Compare) and len(t.ops) == 1 and isinstance(t.ops[0], ast.NotEq)
-                and isinstance(t.comparators[0], ast.Constant) and t.comparators[0].value == "local_crypt_fallback"
-                and isinstance(t.left, ast.Subscript) and isinstance(t.left.slice, ast.Constant) and t.left.slice.value == 0
-                and isinstance(t.left.value, ast.Attribute) and t.left.value.attr == "crypt_provider"
-                and isinstance(t.left.value.value, ast.Name) and mod_of(t.left.value.value.id) == PYPDF_PROVIDERS)
-    G("installs-whenever-pypdf-runs-on-its-fallback-provider", len(guards) <= 1 and all(is_fallback_test(t) for t in guards),
-      "guards: " + "; ".join(ast.unparse(t) for t in guards), definite=False)
-    final = {}
-    bad = []
-    for (tgt, val, line) in stores:
-        parts = tgt.split(".")
-        modname = mod_of(parts[0]) if parts and parts[0] else ""
-        key = None
-        if len(parts) == 2 and parts[1] in DRIVERS and modname in (PYPDF_FALLBACK, PYPDF_PROVIDERS, PYPDF_ENCRYPTION):
-            ok = isinstance(val, ast.Name) and val.id == parts[1] and val.id in m.functions and val.id not in nested and val.id not in local_names
-            key = (modname, parts[1])
-        elif len(parts) == 3 and parts[1] == "CryptAES" and parts[2] in METHOD_ROLES and modname == PYPDF_FALLBACK:
-            ok = isinstance(val, ast.Name) and val.id == METHOD_ROLES[parts[2]] and val.id in nested and val.id not in local_names
-            key = (modname, "CryptAES." + parts[2])
-        elif len(parts) == 2 and parts[1] == "CryptAES" and modname in (PYPDF_PROVIDERS, PYPDF_ENCRYPTION):
-            src = dotted(val).split(".")
-            ok = len(src) == 2 and mod_of(src[0]) == PYPDF_FALLBACK and src[1] == "CryptAES"
-            key = (modname, "CryptAES")
-        else:
-            ok = False
-        if not ok:
-            bad.append(f"line {line}: {tgt} = {ast.unparse(val)}")
-        if key is not None:
-            final[key] = ok
-    G("every-store-binds-the-function-verified-for-that-name", not bad, "; ".join(bad[:4]))
-    want = [(PYPDF_FALLBACK, d) for d in DRIVERS] + [(PYPDF_FALLBACK, "CryptAES." + k) for k in METHOD_ROLES]
-    for mod_ in (PYPDF_PROVIDERS, PYPDF_ENCRYPTION):
-        want += [(mod_, d) for d in DRIVERS] + [(mod_, "CryptAES")]
-    missing = [f"{a}.{b}" for (a, b) in want if (a, b) not in final]
-    G("all-names-pypdf-uses-are-rebound", not missing, "not rebound: " + ", ".join(missing[:6]))
+    fallback = z3.String("crypt_provider!name") == z3.StringVal("local_crypt_fallback")
+    is_true = lambda v: isinstance(v, VBool) and z3.is_true(z3.simplify(v.t))
+    declines, unsure = [], []
+    for (st, val) in r["outcomes"]:
+        if not is_true(val):
+            res = solve.check_vc(st.pc, z3.Not(fallback), 5000, want_model=False)
+            if res.status == "refuted":
+                declines.append(f"returns {val!r} on the fallback provider")
+            elif res.status != "proved":
+                unsure.append("undecided path condition")
+    for (st, exc) in r["raised"]:
+        unsure.append(f"may raise {getattr(exc, 'cls', exc)!r}")
+    G(labels[0], not declines and not unsure, "; ".join(declines + unsure), definite=bool(declines))
+    wrong, stubs, vague = [], [], []
+    applied = [(st, val) for (st, val) in r["outcomes"] if is_true(val)]
+    if not applied:
+        vague.append("no path returns True")
+    for (st, _val) in applied:
+        mods = st.ghost.get("pypdf-modules", {})
+        cls_ref = st.ghost.get("pypdf-CryptAES")
+        for mname in M.PYPDF_MODULES:
+            data = st.obj(mods[mname]).data if mname in mods else None
+            for d in DRIVERS:
+                v = data.get(d) if data is not None else None
+                if data is None or (isinstance(v, VFunc) and v.how == "ext" and str(v.a).startswith("pypdf-stub")):
+                    stubs.append(f"{mname}.{d}")
+                elif not (isinstance(v, VFunc) and v.how == "repo" and v.a == AES and v.b == d):
+                    (wrong if isinstance(v, VFunc) and v.how in ("repo", "closure") else vague).append(f"{mname}.{d} = {v!r}"[:120])
+            v = data.get("CryptAES") if data is not None else None
+            if data is not None and not (isinstance(v, VRef) and v.ref == cls_ref):
+                vague.append(f"{mname}.CryptAES = {v!r}"[:120])
+        cdata = st.obj(cls_ref).data if cls_ref is not None else {}
+        for role in ("__init__", "encrypt", "decrypt"):
+            v = cdata.get(role)
+            if v is None:
+                stubs.append(f"CryptAES.{role}")
+            elif M.func_qualname(r, v) is None:
+                vague.append(f"CryptAES.{role} = {v!r}"[:120])
+    bound = M.installed_methods(repo)
+    if applied and len(bound) != 3 and not stubs:
+        vague.append("the methods bound to CryptAES differ between paths")
+    G(labels[1], not wrong and not vague, "; ".join(wrong + vague)[:400], definite=bool(wrong))
+    G(labels[2], not stubs and bool(applied), ("still pypdf's DependencyError stub: " + ", ".join(sorted(set(stubs))[:6])) if stubs else "no path returns True",
+      definite=bool(stubs))
+    m = loader.module(AES, repo)
     return {"obligations": obls, "functions": [dict(m.fn_info("patch_pypdf_fallback_aes"), obligations=len(obls))]}
 
 
@@ -1076,6 +1147,7 @@ def cache_policy(repo, tier):
 
 
 EXTRA = [table_checks, install_site, cache_policy, chunks_iteration]
+LOCK_OPTIONAL_KINDS = ("slice-store-in-range", "call-pre")       # exist only while the code has that store / call form
 REPLAY_UNKNOWN = True
 from contracts.c20_modes import C20Executor as EXECUTOR  # noqa: E402
 TRUSTED = ["FIPS-197 spec transcription in contracts/C20.py (guarded by known-answer vectors each run)"]
